@@ -1,5 +1,6 @@
 (** C04 — STUN validation accepts exactly RFC-correct integrity, fingerprint and transaction id. *)
 From Coq Require Import ZArith List Bool.
+From Nice Require Stun.ForgetProofs.
 From Nice Require Import Base.Bytes Crypto.Sha1 Crypto.Crc32 Stun.StunModel Stun.StunAgentModel Stun.StunProofs4.
 Import ListNotations.
 Local Open Scope Z_scope.
@@ -57,3 +58,20 @@ Proof. exact validate_response_unmatched. Qed.
 Theorem C04_validation_never_adds_transactions : forall a buf vd a' ms st id m,
   validate a buf vd = Ok (st, a', ms) -> (count_matching (a_sent a') id m <= count_matching (a_sent a) id m)%nat.
 Proof. exact validate_count_le. Qed.
+
+(** giving up a transaction (stun_agent_forget_transaction, what conncheck.c / discovery.c / udp-turn.c do on time-out): the first saved transaction
+    with that id is dropped wherever it sits in the table - also behind slots freed by answers -, the result says whether there was one, the table
+    keeps its size ... *)
+Theorem C04_forget_reports_and_removes_one : forall a id,
+  snd (forget_transaction a id) = negb (Nat.eqb (Nice.Stun.ForgetProofs.count_id (a_sent a) id) 0) /\
+  Nice.Stun.ForgetProofs.count_id (a_sent (fst (forget_transaction a id))) id = pred (Nice.Stun.ForgetProofs.count_id (a_sent a) id) /\
+  length (a_sent (fst (forget_transaction a id))) = length (a_sent a).
+Proof. exact Nice.Stun.ForgetProofs.forget_reports_and_removes_one. Qed.
+
+(** ... and once the only transaction with an id has been given up, a late (or replayed, or forged) response carrying that id is never accepted *)
+Theorem C04_forgotten_transaction_is_unmatched : forall a id buf vd a' ms st cls meth,
+  Nice.Stun.ForgetProofs.count_id (a_sent a) id = 1%nat -> msg_id buf = id ->
+  msg_class buf = Ok cls -> (cls = 2 \/ cls = 3) -> msg_method buf = Ok meth ->
+  validate (fst (forget_transaction a id)) buf vd = Ok (st, a', ms) ->
+  st = V_NOT_STUN \/ st = V_INCOMPLETE \/ st = V_BAD_REQUEST \/ st = V_UNMATCHED_RESPONSE.
+Proof. exact Nice.Stun.ForgetProofs.forgotten_transaction_is_unmatched. Qed.
